@@ -3526,7 +3526,7 @@ impl<'a> Visitor<'a, '_, Error> for JSONValidator<'a> {
   }
 
   fn visit_occurrence(&mut self, o: &Occurrence) -> visitor::Result<Error> {
-    self.state.occurrence = Some(o.occur);
+    self.state.occurrence = Some(normalize_occur(o.occur));
 
     Ok(())
   }
